@@ -287,6 +287,17 @@ def _run_segment(seg: Dict[str, Any], out: Dict[str, Any]) -> None:
                 except BaseException as e:
                     res[p] = {"err": _exc_info(e)}
             obs["loads"] = res
+            if st.get("data_dir"):
+                # the file found under the data directory (results of the generated programs are lists: pickle)
+                files = {}
+                for p in st["paths"]:
+                    fp = os.path.join(st["data_dir"], p.lstrip("/"))
+                    try:
+                        with open(fp, "rb") as fh:
+                            files[p] = {"value": _norm(pickle.load(fh))}
+                    except BaseException as e:
+                        files[p] = {"err": _exc_info(e)}
+                obs["files"] = files
         else:
             raise ValueError(op)
         out["steps"].append(obs)
